@@ -211,7 +211,7 @@ static bool op_enabled(const Op& op, const Abs& pre) {
 	case OP_ENTER: return !active && tx_empty(pre.req);
 	case OP_REPLAY_E: return !active && tx_empty(pre.req);
 	case OP_EXIT: case OP_DESTROY: return active && tx_empty(pre.req);
-	case OP_LOAD: return VX_MANUAL ? true : active;
+	case OP_LOAD: return VX_MANUAL ? (op.a != N || !active || tx_empty(pre.req)) : active;   // loading 'inactive' runs the final exit, which asserts that no request is outstanding
 	case OP_SAVE: return VX_MANUAL ? true : active;
 	case OP_COPY: return true;
 	case OP_ATTACH: return true;
@@ -305,7 +305,7 @@ static void explore_op(long pre_idx, const Abs* pre, const Op& op, int maxdev, b
 		run_edge(pre_idx, pre, op, dv);
 		++n_edges;
 		const int nch = G.nch; uint16_t menu[MAXCH]; memcpy(menu, G.menu, sizeof(uint16_t) * nch);
-		if (monitors) { run_monitors(E); g_digest += edge_hash(E); shapes.add(shape_hash(E)); maybe_sample(E); companions(E); }
+		if (monitors) { run_monitors(E); g_digest += edge_hash(E); shapes.add(shape_hash(E)); maybe_sample(E); }
 		if (E.overflow && !monitors && (opt.props & (1u << C04))) { /* reported in the monitored pass */ }
 		if (!E.terminal && !E.overflow) {
 			if (discover) {
@@ -318,6 +318,7 @@ static void explore_op(long pre_idx, const Abs* pre, const Op& op, int maxdev, b
 				}
 			} else if (store.find(g_postkey) < 0) die("closure violated: successor state not in the closed set (op %s)", OP_NAME[op.k]);
 		}
+		if (monitors) companions(E);   // after interning: companions re-use slot 0
 		if (dv.n < maxdev) {
 			const int start = dv.n ? dv.pos[dv.n - 1] + 1 : 0;
 			for (int i = nch - 1; i >= start; --i) for (int alt = menu[i] - 1; alt >= 1; --alt) { DevVec c = dv; c.pos[c.n] = static_cast<uint16_t>(i); c.alt[c.n] = static_cast<uint16_t>(alt); ++c.n; stack.push(c); }
@@ -606,10 +607,11 @@ static int replay_main() {
 		run_edge(pre_idx, pre_idx >= 0 ? &pre : nullptr, op, dv);
 		Text t; edge_text(t, E, true); printf("step %d: %s\n", step, t.c()); free(t.p);
 		g_replay_flags = 0;
-		run_monitors(E); companions(E);
-		flagged_last = g_replay_flags;
-		if (E.terminal) break;
+		run_monitors(E);
+		if (E.terminal) { flagged_last = g_replay_flags; break; }
 		bool isnew; size_t idx = store.intern(g_postkey, g_slot[0].bytes, &isnew);
+		companions(E);
+		flagged_last = g_replay_flags;
 		if (isnew) { Parent pr; memset(&pr, 0, sizeof pr); pr.idx = static_cast<int32_t>(pre_idx); pr.op = op; pr.ndev = static_cast<uint8_t>(dv.n); for (int i = 0; i < dv.n; ++i) { pr.pos[i] = dv.pos[i]; pr.alt[i] = dv.alt[i]; } parents.push(pr); }
 		pre_idx = static_cast<long>(idx); ++step;
 	}
